@@ -22,7 +22,7 @@ RULE = ('histories of 1-10 steps: unit environments opened with valid units (dic
 SHARDS = {'quick': 16, 'thorough': 16}
 MIN_NONTRIVIAL = {'quick': 600, 'thorough': 15000}
 REQUIRED_CLASSES = ['scope-valid', 'scope-nested', 'scope-repeated', 'scope-body-raises', 'fail:duplicate-standard', 'fail:duplicate-outer',
-                    'fail:prefixed-clash', 'fail:malformed', 'fail:malformed-entry-with-new-conversion-type', 'fail-after-successes', 'form:dict', 'form:quantity', 'form:prefixes',
+                    'fail:prefixed-clash', 'fail:malformed', 'fail:malformed-entry-with-new-conversion-type', 'fail:entry-admits-an-unknown-prefix', 'fail-after-successes', 'form:dict', 'form:quantity', 'form:prefixes',
                     'form:custom-type', 'dip:valid', 'dip:clash-second-unit', 'dip:unrelated-error', 'dip:expression', 'dip:add_unit',
                     'dip:nested-in-scope', 'dip:units-from-source']
 REQUIRED_MONITORS = ['scope_events', 'scope_end_digest_compares', 'failed_open_digest_compares', 'parse_digest_compares',
@@ -101,7 +101,7 @@ def gen_units(rng, names, fail=None):
         pos = min(pos, len(out))
         bad = {'duplicate-standard': dict(sym=rng.choice(['m', 'kg', 'J', 'erg', '[c]', 'Pa']), form='dict', mag=1.0, pre=None),
                'prefixed-clash': dict(sym=rng.choice(['am', 'kPa', 'mm', 'GeV']), form='dict', mag=1.0, pre=None),
-               'malformed': dict(sym='bad', form=rng.choice(['no-dimensions', 'no-magnitude', 'custom-type-no-dimensions', 'custom-type-no-magnitude']), mag=1.0, pre=None),
+               'malformed': dict(sym='bad', form=rng.choice(['no-dimensions', 'no-magnitude', 'custom-type-no-dimensions', 'custom-type-no-magnitude', 'unknown-prefix-in-list', 'unknown-prefix-in-list']), mag=1.0, pre=None),
                'duplicate-outer': dict(sym='__outer__', form='dict', mag=1.0, pre=None)}[kind]
         out.insert(pos, bad)
     return out
@@ -195,6 +195,9 @@ def unit_dict(ctx, u):
     if u['form'] == 'custom-type-no-magnitude':
         return {'dimensions': L, 'definition': ctx['CT2']}
     d = {'magnitude': u['mag'], 'dimensions': list(L)}
+    if u['form'] == 'unknown-prefix-in-list':         # complete entry whose list of admitted prefixes names a prefix that does not exist
+        d['prefixes'] = ['k', 'X']
+        return d
     if u['form'] == 'prefixes':
         d['prefixes'] = list(u['pre'])
     if u['form'] == 'custom-type':
@@ -257,6 +260,8 @@ def run_scope(sc, ctx, st, active):
             st['classes'].add('fail-after-successes')
         if any(u['form'].startswith('custom-type-no') for u in sc['units']):
             st['classes'].add('fail:malformed-entry-with-new-conversion-type')
+        if any(u['form'] == 'unknown-prefix-in-list' for u in sc['units']):
+            st['classes'].add('fail:entry-admits-an-unknown-prefix')
         st['nontrivial'] = True
     if active:
         st['nontrivial'] = True
